@@ -158,15 +158,23 @@ class SymbolTables:
                 # Create a new, top-level symbol table with the supplied name.
                 table = self.add(lname, node=node)
         else:
-            # We are already inside a scoping region so create a new table
-            # and setup its parent/child connections.
-            table = SymbolTable(
-                lname,
-                parent=self._current_scope,
-                checking_enabled=self._enable_checks,
-                node=node,
-            )
-            self._current_scope.add_child(table)
+            # We are already inside a scoping region. If it already has a
+            # table for this very node then the parser is reading the region
+            # again (having abandoned an enclosing construct and gone back),
+            # and its statements are served from the per-line cache without
+            # being matched again. Re-use that table.
+            for table in self._current_scope.children:
+                if node is not None and table.node is node and table.name == lname:
+                    break
+            else:
+                # Create a new table and setup its parent/child connections.
+                table = SymbolTable(
+                    lname,
+                    parent=self._current_scope,
+                    checking_enabled=self._enable_checks,
+                    node=node,
+                )
+                self._current_scope.add_child(table)
 
         # Finally, make this new table the current scope
         self._current_scope = table
